@@ -23,7 +23,7 @@ def _coq_eval(ctx):
                 "From AGH Require Import Base.Conc Model.Guards Proofs.LockTable Gen.LockTable.\n"
                 "Set Printing Depth 1000000.\n"
                 "Definition BADACC := Eval vm_compute in map (fun a => (access_key a, a_pos a)) "
-                "(filter (fun a => negb (access_ok a)) accesses).\nPrint BADACC.\n"
+                "(filter (fun a => negb (access_ok_ro (never_written accesses) a)) accesses).\nPrint BADACC.\n"
                 "Definition NBADORD := Eval vm_compute in List.length (bad_orders (rank_of (computed_ranks "
                 "(checked_order known_keys lock_order))) known_keys lock_order).\nPrint NBADORD.\n")
     rc, out = ctx.run(["coqc", "-Q", ctx.COQ, "AGH", "-w", "none", src], cwd=ctx.workdir, timeout=900)
